@@ -496,25 +496,52 @@ def segAdd (sg : Seg) (f : Fld) (strict : Bool) : R Seg := do
     | none => sg.last
   pure { sg with kids := sg.kids ++ [f], last := last }
 
+/-- `Segment(name, version=…, validation_level=…)` (core.py:1597-1620) -/
+def segmentNew (name : String) : R Seg :=
+  let nameU := name.toUpper
+  if isZSeg name then pure ⟨nameU, [], [], [], true, 0, 0, []⟩
+  else
+    match T.segments.find? (·.name == nameU) with
+    | none => throw .InvalidName
+    | some e =>
+      match e.shape with
+      | .bad n => if n < 2 then throw .CrashIndexError else throw .CrashTypeError
+      | .ok _ => do
+        let (by_, reps, lg) ← rowsStruct T e.rows
+        match by_.getLast? with
+        | none => throw .CrashIndexError
+        | some (lastName, lastRef) =>
+          let isVaries := match lastRef with | .leaf d => d == some "varies" | .seq _ d => d == some (some "varies") | _ => false
+          pure ⟨nameU, by_, reps, lg, isVaries, idxOf lastName, idxOf lastName, []⟩
+
+/-- `Segment.find_child_reference(name)`: canonical child name and its reference -/
+def segFindChild (sg : Seg) (name : String) : R (String × Ref) :=
+  let n := name.toUpper
+  match sg.byName.lookup n with
+  | some r => pure (n, r)
+  | none =>
+    match sg.byLong.lookup n with
+    | some k => match sg.byName.lookup k with
+      | some r => pure (k, r)
+      | none => throw .CrashKeyError
+    | none =>
+      if sg.inf && validChildName (some n) sg.name then
+        pure (n, .leaf (some (if isZField n then "ST" else "varies")))
+      else if (T.fields.find? (·.name == n)).isSome then throw .ChildNotValid
+      else throw .ChildNotFound
+
+/-- `segment.<name> = "text"` on a segment that has no child of that name yet
+    (`ElementList.set` → `parse_child` → `append`) -/
+def segSetStr (sg : Seg) (name : String) (value : Str) (ec : EC) (strict : Bool) : R Seg := do
+  let (cname, ref) ← segFindChild T sg name
+  let f ← field T dflt value (some cname) ec strict (some ref) sg.inf
+  if f.name != some cname then throw .ChildNotValid
+  segAdd T sg f strict
+
 def segment (text : Str) (ec : EC) (strict : Bool) : R Seg := do
   let name := String.ofList (text.take 3)
   let rest := if name != "MSH" then text.drop 4 else text.drop 3
-  let nameU := name.toUpper
-  let sg0 : Seg ←
-    if isZSeg name then pure ⟨nameU, [], [], [], true, 0, 0, []⟩
-    else
-      match T.segments.find? (·.name == nameU) with
-      | none => throw .InvalidName
-      | some e =>
-        match e.shape with
-        | .bad n => if n < 2 then throw .CrashIndexError else throw .CrashTypeError
-        | .ok _ =>
-          let (by_, reps, lg) ← rowsStruct T e.rows
-          match by_.getLast? with
-          | none => throw .CrashIndexError
-          | some (lastName, lastRef) =>
-            let isVaries := match lastRef with | .leaf d => d == some "varies" | .seq _ d => d == some (some "varies") | _ => false
-            pure ⟨nameU, by_, reps, lg, isVaries, idxOf lastName, idxOf lastName, []⟩
+  let sg0 ← segmentNew T name
   -- parse_fields
   let rest := ((rest.dropWhile (· == '\r')).reverse.dropWhile (· == '\r')).reverse
   let fields ← (splitOn ec.field rest).zipIdx.foldlM (fun (acc : List Fld) (ft, i) => do
